@@ -127,6 +127,8 @@ def run(F, res, tier):
     c06.search_scope_rules(F, res)
     c06.search_rejections_are_reviewed(F, res, rule="N11")
     c06.search_scope_narrowings_are_reviewed(F, res, rule="N12")
+    from rules import c05 as _c05n
+    _c05n.lowering_takes_every_child_of_a_list(F, res, rule="N14")   # a binder that is never lowered cannot be renamed
     from rules import c08 as _c08
     _c08.module_locality_implies_package_locality(F, res, rule="N13")   # a local file taken for a fetched one loses its edits
     # a qualified type name is classified through its qualifier (else renaming one of two equally named types edits the other)
